@@ -14,6 +14,9 @@ func (vc *FuncVC) execBlock(b *ssa.BasicBlock) {
 	st := vc.out[b]
 	reach := vc.reach[b]
 	for _, ins := range b.Instrs {
+		if ins.Pos().IsValid() {
+			vc.curPos = ins.Pos()
+		}
 		switch ins := ins.(type) {
 		case *ssa.Phi:
 			// handled on block entry
